@@ -52,8 +52,8 @@ func main() {
 	rnd := hx.NewRand(*seed)
 	thorough := *tier == "thorough"
 
-	npk, nf, maxBlocks, ntd := 4, 36, 100, 2
-	repoPats := []string{"./pattern", "./go/ir", "./config"}
+	npk, nf, maxBlocks, ntd := 3, 32, 100, 2
+	repoPats := []string{"./go/ir", "./config"}
 	modes := []ir.BuilderMode{0, ir.NaiveForm, ir.GlobalDebug | ir.InstantiateGenerics, ir.NaiveForm | ir.GlobalDebug | ir.InstantiateGenerics | ir.BuildSerially}
 	if thorough {
 		npk, nf, maxBlocks, ntd = 40, 60, 700, 0
